@@ -777,6 +777,13 @@ impl HuffmanEncoder {
     }
 }
 
+/// Number of symbols a bit stream of `byte_len` bytes can yield when every symbol
+/// costs at least one bit (plus one for a symbol completed exactly at the end).
+#[inline]
+fn max_symbols_from_bits(byte_len: usize) -> usize {
+    byte_len.saturating_mul(8).saturating_add(1)
+}
+
 /// Huffman decoder
 #[derive(Debug)]
 pub struct HuffmanDecoder {
@@ -800,7 +807,9 @@ impl HuffmanDecoder {
             None => return Err(ZiporaError::invalid_data("Empty Huffman tree")),
         };
 
-        let mut result = Vec::with_capacity(output_length);
+        // `output_length` is caller-supplied and may be arbitrary: reserve no more than the
+        // input could plausibly produce (one symbol per bit) and let the vector grow.
+        let mut result = Vec::with_capacity(output_length.min(max_symbols_from_bits(encoded_data.len())));
         let mut current_node = root;
 
         for &byte in encoded_data {
@@ -1559,6 +1568,15 @@ impl ContextualHuffmanEncoder {
             stream_ends[n] = stream_starts[n] + stream_size;
         }
 
+        // Every symbol of an interleaved Order-1 stream costs at least one bit (all trees hold
+        // all symbols), so a larger `output_size` cannot be satisfied by this input: refuse
+        // it before sizing the output buffer from a caller-supplied number.
+        if output_size > data.len().saturating_mul(8) {
+            return Err(ZiporaError::invalid_data(
+                "Output size exceeds what the encoded data can hold",
+            ));
+        }
+
         // Create output buffer with correct size
         let mut output = vec![0u8; output_size];
 
@@ -1879,7 +1897,9 @@ impl ContextualHuffmanDecoder {
             return Ok(Vec::new());
         }
 
-        let mut result = Vec::with_capacity(output_length);
+        // `output_length` is caller-supplied and may be arbitrary: reserve no more than the
+        // input could plausibly produce (one symbol per bit) and let the vector grow.
+        let mut result = Vec::with_capacity(output_length.min(max_symbols_from_bits(encoded_data.len())));
 
         match self.encoder.order {
             HuffmanOrder::Order0 => {
@@ -1908,7 +1928,9 @@ impl ContextualHuffmanDecoder {
     /// Decode Order-0 (classic Huffman)
     fn decode_order0(&self, encoded_data: &[u8], tree: &HuffmanTree, output_length: usize) -> Result<Vec<u8>> {
         let root = tree.root().ok_or_else(|| ZiporaError::invalid_data("Empty tree"))?;
-        let mut result = Vec::with_capacity(output_length);
+        // `output_length` is caller-supplied and may be arbitrary: reserve no more than the
+        // input could plausibly produce (one symbol per bit) and let the vector grow.
+        let mut result = Vec::with_capacity(output_length.min(max_symbols_from_bits(encoded_data.len())));
         let mut current_node = root;
 
         for &byte in encoded_data {
@@ -1958,7 +1980,9 @@ impl ContextualHuffmanDecoder {
             return Ok(Vec::new());
         }
 
-        let mut result = Vec::with_capacity(output_length);
+        // `output_length` is caller-supplied and may be arbitrary: reserve no more than the
+        // input could plausibly produce (one symbol per bit) and let the vector grow.
+        let mut result = Vec::with_capacity(output_length.min(max_symbols_from_bits(encoded_data.len())));
         let mut byte_idx = 0;
         let mut bit_pos = 0;
 
@@ -1991,7 +2015,9 @@ impl ContextualHuffmanDecoder {
             return Ok(Vec::new());
         }
 
-        let mut result = Vec::with_capacity(output_length);
+        // `output_length` is caller-supplied and may be arbitrary: reserve no more than the
+        // input could plausibly produce (one symbol per bit) and let the vector grow.
+        let mut result = Vec::with_capacity(output_length.min(max_symbols_from_bits(encoded_data.len())));
         let mut byte_idx = 0;
         let mut bit_pos = 0;
 
